@@ -235,9 +235,33 @@ def _rule_helper(repo, col):
     col.decide("Y3", m, ge[0], o2 == "evaluator", "the evaluator class is looked up under the name given in the evaluator argument",
                "get_evaluatable is called with a name derived from %s: the evaluator argument of subquery/5 must select the knowledge compiler" % o2, function="_create_evaluator_and_semiring")
     # the defaults: both names start as None (top-level defaults)
+    from .. import dtable
+
+    def helper_default_none(st):
+        """`x = helper(<param>, ...)` where the module-level helper returns None for a missing (falsy) first argument"""
+        v = st.value
+        if not (isinstance(v, ast.Call) and isinstance(v.func, ast.Name) and v.args and isinstance(v.args[0], ast.Name)):
+            return None
+        h = m.functions.get(v.func.id)
+        if h is None or not h.params:
+            return None
+        ps = dtable.extract(h.node, opaque_loops=True)
+        miss = [p_ for p_ in ps if dict((s_, t) for s_, t, _ in p_.conds).get(h.params[0]) is False]
+        if not miss:
+            return None
+        return all(p_.end == "return" and p_.value in ("None", None) for p_ in miss)
+
     for nm, want in ((a, "semiring"), (b, "evaluator")):
         if isinstance(nm, ast.Name) and nm.id in names:
             inits = [st for s, st in names[nm.id] if s is None]
+            if not inits:
+                verdicts = [helper_default_none(st) for _, st in names[nm.id]]
+                if len(verdicts) == 1 and verdicts[0] is not None:
+                    col.decide("Y3", m, names[nm.id][0][1], verdicts[0], "without a %s argument the registry default is used (helper returns None)" % want,
+                               "the default %s name must be None (the registry's default, as at top level): the helper returns something else for a missing argument" % want,
+                               function="_create_evaluator_and_semiring")
+                    continue
+                raise AnalysisError("_create_evaluator_and_semiring: default of the %s name has a shape this rule does not model" % want)
             ok = bool(inits) and all(isinstance(st.value, ast.Constant) and st.value.value is None for st in inits)
             col.decide("Y3", m, inits[0] if inits else f.node, ok, "without a %s argument the registry default is used (name=None)" % want,
                        "the default %s name must be None (the registry's default, as at top level)" % want, function="_create_evaluator_and_semiring",
